@@ -222,14 +222,25 @@ class Real(Type):
 
     def encode(self, data):
         data = float(data)
-        exponent = 0
 
-        while abs(data) >= 10:
-            data /= 10
-            exponent += 1
+        # Mantissa and exponent are taken from the shortest decimal
+        # text of the value ('-1234.5', '1e+22', '1.5e-07'), moving
+        # the decimal point instead of dividing (which rounds).
+        mantissa, _, exponent = repr(data).partition('e')
+        exponent = int(exponent) if exponent else 0
+        sign = '-' if mantissa.startswith('-') else ''
+        integer, _, fraction = mantissa.lstrip('-').partition('.')
+
+        if len(integer) > 1:
+            exponent += len(integer) - 1
+            fraction = (integer[1:] + fraction).rstrip('0')
+            integer = integer[0]
 
         element = ElementTree.Element(self.name)
-        element.text = '{}E{}'.format(data, exponent)
+        element.text = '{}{}.{}E{}'.format(sign,
+                                           integer,
+                                           fraction or '0',
+                                           exponent)
 
         return element
 
